@@ -12,7 +12,8 @@ extern int vw_nerrors, vw_limit_mask;
 extern char vw_last_error_text[200], vw_first_limit_text[120];
 extern void vw_reset_errors (void);
 
-static long E, D, K, A, S, B;          /* the configuration */
+static long E, D, K, A, S, B, M;       /* the configuration (M = MaxMappingSize, default = A) */
+static const char *master_mode = "plain";
 static int selftest;
 
 /* ------------------------------------------------------------------ corpus */
@@ -25,7 +26,7 @@ static char *subst_limits (const char *t) {
   for (; *t; t++) {
     if (n + 64 > cap) { cap *= 2; o = realloc (o, cap); }
     if (t[0] == '@' && strchr ("EDKAMSB", t[1])) {
-      long v = t[1] == 'E' ? E : t[1] == 'D' ? D : t[1] == 'K' ? K : t[1] == 'A' ? A : t[1] == 'M' ? A : t[1] == 'S' ? S : B;
+      long v = t[1] == 'E' ? E : t[1] == 'D' ? D : t[1] == 'K' ? K : t[1] == 'A' ? A : t[1] == 'M' ? M : t[1] == 'S' ? S : B;
       n += (size_t) sprintf (o + n, "%ld", v);
       t++;
     } else o[n++] = *t;
@@ -134,6 +135,57 @@ static void build_corpus (void) {
       }
     }
   }
+  /* ---- argument lists merged by the driver: call_other(ob, ({ "fn", args... })) and bound funptr arguments */
+  for (int cnt = 15; cnt <= 120; cnt *= 2) {
+    char agg[1500]; size_t n = 0;
+    for (int i = 0; i < cnt; i++) n += (size_t) snprintf (agg + n, sizeof agg - n, ",%d", i);
+    snprintf (body, sizeof body, "  gw = call_other(this_object(), ({ \"va\" %s }));", agg);
+    snprintf (name, sizeof name, "wide:call_other-with-%d-args-in-array", cnt);
+    add_prog ('L', name, "int va(mixed *a...) { return sizeof(a); }", body);
+    snprintf (body, sizeof body, "  gw = call_other(({ this_object() }), ({ \"va\" %s }));", agg);
+    snprintf (name, sizeof name, "wide:call_other-on-array-with-%d-args-in-array", cnt);
+    add_prog ('L', name, "int va(mixed *a...) { return sizeof(a); }", body);
+    snprintf (body, sizeof body, "  function f = (: va %s :);\n  gw = evaluate(f, 1, 2);", agg);
+    snprintf (name, sizeof name, "wide:funptr-with-%d-bound-args", cnt);
+    add_prog ('L', name, "int va(mixed *a...) { return sizeof(a); }", body);
+    snprintf (body, sizeof body, "  function f = (: call_other, this_object(), \"va\" %s :);\n  gw = evaluate(f, 1, 2);", agg);
+    snprintf (name, sizeof name, "wide:efun-funptr-with-%d-bound-args", cnt);
+    add_prog ('L', name, "int va(mixed *a...) { return sizeof(a); }", body);
+  }
+  /* ---- the value stack filled to within a few slots of StackSize by temporaries of ONE expression (no frames needed), then a site
+   * that reserves / pushes 10 values at once; every alignment around the end of the stack.  All of it runs inside run()'s catch. */
+  {
+    static const char *site_name[] = { "callee-with-10-locals", "F_PUSH-10-locals", "spread-10", "call_other-array-args-10", "bound-funptr-10-args",
+                                       "efun-callback-10-extra-args", "call_other-on-array-10-args", "aggregate-10-numbers", "catch-of-callee-with-10-locals",
+                                       "catch-of-spread-10" };
+    static const char *site_expr[] = { "w10()", "va(a, a, a, a, a, a, a, a, a, a)", "va(ten...)", "call_other(this_object(), ({ \"va\" }) + ten)", "evaluate(f10)",
+                                       "sizeof(filter(one, (: cb10 :), 1, 2, 3, 4, 5, 6, 7, 8, 9, 10))", "sizeof(call_other(({ this_object() }), \"va\", a, a, a, a, a, a, a, a, a, a))",
+                                       "sizeof(({ 1, 2, 3, 4, 5, 6, 7, 8, 9, 10 }))", "sizeof(({ catch(w10()) }))", "sizeof(({ catch(va(ten...)) }))" };
+    static const char *site_helpers = "int va(mixed *a...) { return sizeof(a); }\nint pad(mixed *a...) { return sizeof(a); }\nint w10() { mixed b, c, d, e, f, g, h, i, j, k; return 1; }\n"
+      "mixed *ten = ({ 1, 2, 3, 4, 5, 6, 7, 8, 9, 10 });\nfunction f10 = (: va, 1, 2, 3, 4, 5, 6, 7, 8, 9, 10 :);\n"
+      "int cb10(mixed x, mixed b, mixed c, mixed d, mixed e, mixed f, mixed g, mixed h, mixed i, mixed j, mixed k) { return 1; }\n";
+    for (unsigned st = 0; A >= 10 && st < sizeof site_name / sizeof *site_name; st++)   /* the helpers need arrays of 10 */
+      for (int off = -12; off <= 16; off++) {
+        int pad = (int) K - 5 - 10 - 4 + off;
+        if (pad < 1) continue;
+        char padding[1200]; size_t n = 0;
+        for (int i = 0; i < pad && n + 8 < sizeof padding; i++) n += (size_t) snprintf (padding + n, sizeof padding - n, "7, ");
+        /* (a big literal aggregate is compiled piecewise; the arguments of a call are really all on the stack) */
+        snprintf (body, sizeof body, "  mixed a = 1;\n  gw = pad(%s%s);", padding, site_expr[st]);
+        snprintf (name, sizeof name, "stack-edge:%s:pad%+d", site_name[st], off);
+        add_prog ('L', name, site_helpers, body);
+      }
+  }
+  /* ---- endless recursion through catch started one and two frames deeper (which of push_control_stack() / save_context() in
+   * do_catch() meets the depth limit depends on the parity) */
+  add_prog ('L', "recursion:catch:+1-frame", "int f() { catch(f()); return 1; }\nint h1() { return f(); }", "  h1();");
+  add_prog ('L', "recursion:catch:+2-frames", "int f() { catch(f()); return 1; }\nint h1() { return f(); }\nint h2() { return h1(); }", "  h2();");
+  add_prog ('L', "recursion:catch-block:+1-frame", "int f() { catch { f(); }; return 1; }\nint h1() { return f(); }", "  h1();");
+  add_prog ('L', "recursion:catch(catch):+1-frame", "int f() { catch(catch(f())); return 1; }\nint h1() { return f(); }", "  h1();");
+  add_prog ('L', "recursion:wide-frames-in-catch", "int w(int d) { mixed a, b, c, e, f, g, h, i, j, k, l, m, n, o, p, q, r, s, t, u; catch(w(d + 1)); return 1; }", "  w(0);");
+  add_prog ('L', "recursion:wide-frames-in-catch:+1-frame", "int w(int d) { mixed a, b, c, e, f, g, h, i, j, k, l, m, n, o, p, q, r, s, t, u; catch(w(d + 1)); return 1; }\nint h1() { return w(0); }", "  h1();");
+  add_prog ('L', "recursion:spread-in-catch", "int w(mixed *a...) { catch(w(a..., a...)); return 1; }", "  w(1, 2);");
+  add_prog ('L', "recursion:catch(f(allocate(N)...))", "int va(mixed *a...) { return sizeof(a); }", "  catch(va(allocate(@A)...));\n  catch(va(allocate(@A)..., allocate(@A)...));");
   /* ---- value builders: doubling loop, +1 loop, each step inside a catch ("refused, then used normally") and not */
   struct { const char *name, *init, *step; } vb[] = {
     { "string:v=v+v", "\"ab\"", "v = v + v;" },
@@ -211,6 +263,24 @@ static void build_corpus (void) {
     { "mapping:insert-by-index(sole-holder)", "nearfull()", "gv = 0; v[sizeof(v)] = 1;" },
     { "buffer:v+=v(sole-holder)", "allocate_buffer(2)", "gv = 0; v += v;" },
     { "buffer:v=v+v(sole-holder)", "allocate_buffer(2)", "gv = 0; v = v + v;" },
+    /* string-producing paths of += whose left side is a number */
+    { "string:int+=string", "repeat_string(\"a\", @S - 8)", "w = 12345678; w += v; v = w;" },
+    { "string:float+=string", "repeat_string(\"a\", @S - 8)", "w = 1.5; w += v; v = w;" },
+    { "string:int+=string(sole-holder)", "repeat_string(\"a\", @S - 8)", "gv = 0; w = 12345678; w += v; v = w; w = 0;" },
+    { "string:global-int+=string", "repeat_string(\"a\", @S - 8)", "gw = 7; gw += v; v = gw; gw = 0;" },
+    { "string:array-element-int+=string", "repeat_string(\"a\", @S - 8)", "w = ({ 7 }); w[0] += v; v = w[0];" },
+    { "string:read_buffer(buffer)", "\"ab\"", "n = strlen(v) * 2; if (n > @B) n = @B; w = allocate_buffer(n); for (j = 0; j < n; j++) w[j] = 65; v = read_buffer(w);" },
+    { "string:read_buffer(buffer,start,len)", "\"ab\"", "n = strlen(v) * 2; if (n > @B - 1) n = @B - 1; w = allocate_buffer(n + 1); for (j = 0; j <= n; j++) w[j] = 66; v = read_buffer(w, 1, n);" },
+    { "string:set_bit", "\"\"", "v = set_bit(v, 6 * (strlen(v) + 1) * 2);" },
+    { "string:strwrap", "repeat_string(\"ab \", (@S - 3) / 3)", "v = strwrap(v, 2, 2);" },
+    { "array:restore_variable(text)", "({ 1, 2 })", "n = sizeof(v) * 2; w = \"({\"; for (j = 0; j < n; j++) w += \"1,\"; w += \"})\"; v = restore_variable(w);" },
+    { "mapping:restore_variable(text)", "([ 0 : 0 ])", "n = sizeof(v) * 2; w = \"([\"; for (j = 0; j < n; j++) w += j + \":1,\"; w += \"])\"; v = restore_variable(w);" },
+    { "mapping:unique_mapping(array)", "([ 0 : 0 ])", "n = sizeof(v) * 2; w = allocate(n); for (j = 0; j < n; j++) w[j] = j; v = unique_mapping(w, (: $1 :));" },
+    { "mapping:unique_mapping(array,by-name)", "([ 0 : 0 ])", "n = sizeof(v) * 2; w = allocate(n); for (j = 0; j < n; j++) w[j] = j; v = unique_mapping(w, \"ident\", this_object());" },
+    { "mapping:map(mapping-from-array-keys)", "([ 0 : 0 ])", "n = sizeof(v) * 2; w = ([]); for (j = 0; j < n; j++) w[j] = j; v = map(w, (: $2 :));" },
+    { "mapping:filter(mapping)", "([ 0 : 0 ])", "n = sizeof(v) * 2; w = ([]); for (j = 0; j < n; j++) w[j] = j; v = filter(w, (: 1 :));" },
+    { "mapping:copy", "([ 0 : 0 ])", "n = sizeof(v) * 2; w = ([]); for (j = 0; j < n; j++) w[j] = j; v = copy(w) + ([ n : 1 ]);" },
+    { "array:unique_array(many-groups)", "({ 1, 2 })", "n = sizeof(v) * 2; w = allocate(n); for (j = 0; j < n; j++) w[j] = j; v = unique_array(w, (: $1 :));" },
     { "buffer:v=v+v", "allocate_buffer(2)", "v = v + v;" },
     { "buffer:v+=v", "allocate_buffer(2)", "v += v;" },
     { "buffer:allocate_buffer", "allocate_buffer(2)", "v = allocate_buffer(sizeof(v) * 2);" },
@@ -224,7 +294,7 @@ static void build_corpus (void) {
                 "  for (i = 0; i < 9; i++) { %s%s%s gv = v; }\n  gw = sizeof(v);",
                 vb[i].init, guarded ? "e = catch { " : "", vb[i].step, guarded ? " };" : "");
       snprintf (name, sizeof name, "build:%s:%s", vb[i].name, guarded ? "each-step-in-catch" : "plain");
-      add_prog ('V', name, "void move_to(object o) { move_object(o); }\nmapping nearfull() { mapping m = ([]); int i; for (i = 0; i < @M - 3; i++) m[i] = i; return m; }", body);
+      add_prog ('V', name, "void move_to(object o) { move_object(o); }\nmixed ident(mixed x) { return x; }\nmapping nearfull() { mapping m = ([]); int i; for (i = 0; i < @M - 3; i++) m[i] = i; return m; }", body);
     }
   /* literal aggregates larger than the limit */
   {
@@ -269,7 +339,7 @@ static void build_corpus (void) {
 }
 
 /* ------------------------------------------------------------------ monitors */
-static long insns, max_depth, max_sp, bound_insns;
+static long insns, insns_prog, max_depth, max_sp, bound_insns;
 static int monitoring, runaway;
 static char viol[8][300]; static char viol_key[8][120]; static int nviol;
 
@@ -299,7 +369,7 @@ static void check_value (svalue_t *v, const char *where, int depth) {
     break;
   case T_MAPPING: {
     mapping_t *m = v->u.map;
-    if ((long) m->count > A) { char key[120]; snprintf (key, sizeof key, "C04:mapping-larger-than-MaxMappingSize"); note (key, "a mapping of %d entries exists (MaxMappingSize %ld) %s", m->count, A, where); }
+    if ((long) m->count > M) { char key[120]; snprintf (key, sizeof key, "C04:mapping-larger-than-MaxMappingSize"); note (key, "a mapping of %d entries exists (MaxMappingSize %ld) %s", m->count, M, where); }
     int seen = 0;
     for (int i = 0; i <= m->table_size && seen < 200; i++) for (mapping_node_t *n = m->table[i]; n; n = n->next) { seen++; check_value (&n->values[0], where, depth + 1); check_value (&n->values[1], where, depth + 1); }
     break; }
@@ -313,6 +383,8 @@ static void check_value (svalue_t *v, const char *where, int depth) {
 static void hook (void) {
   if (!monitoring) return;
   insns++;
+  /* the bound is about the program; what the master's error_handler() executes is paid from the budgets the driver re-arms for it */
+  if (current_object != master_ob) insns_prog++;
   long d = csp - control_stack + 1;
   if (d > max_depth) max_depth = d;
   long h = sp - start_of_stack + 1;
@@ -331,7 +403,7 @@ static void hook (void) {
     svalue_t *v = sp;
     if (v->type == T_STRING || v->type == T_BUFFER) check_value (v, where, 5);
     else if (v->type == T_ARRAY && (long) v->u.arr->size > A) check_value (v, where, 5);
-    else if (v->type == T_MAPPING && (long) v->u.map->count > A) check_value (v, where, 5);
+    else if (v->type == T_MAPPING && (long) v->u.map->count > M) check_value (v, where, 5);
   }
   last_op = EXTRACT_UCHAR (pc);
   if (last_op == F_EFUN0 || last_op == F_EFUN1 || last_op == F_EFUN2 || last_op == F_EFUN3) last_op = EXTRACT_UCHAR (pc + 1) + ONEARG_MAX;
@@ -348,7 +420,7 @@ static void hook (void) {
 static void do_load (void *p) { prog_t *pr = p; (void) pr; }
 static void elem1 (long idx) {
   prog_t *p = &progs[idx];
-  snprintf (vm_ctx_desc, sizeof vm_ctx_desc, "%s conf E=%ld D=%ld K=%ld A=%ld S=%ld B=%ld", p->name, E, D, K, A, S, B);
+  snprintf (vm_ctx_desc, sizeof vm_ctx_desc, "%s conf E=%ld D=%ld K=%ld A=%ld S=%ld B=%ld M=%ld master=%s", p->name, E, D, K, A, S, B, M, master_mode);
   vx_obs ("%s", vm_ctx_desc);
   /* compile and create() with a generous budget: the evaluation under test is run() */
   CONFIG_INT (__MAX_EVAL_COST__) = 1000000;
@@ -360,7 +432,7 @@ static void elem1 (long idx) {
   add_ref (ob, "harness");
   safe_apply_master_ob ("clear_errors", 0);
   vw_reset_errors ();
-  insns = max_depth = max_sp = 0; nviol = 0; runaway = 0; bound_insns = 3 * budget; last_op = 0;
+  insns = insns_prog = max_depth = max_sp = 0; nviol = 0; runaway = 0; bound_insns = 3 * budget; last_op = 0;
 #ifdef NEOLITH_VERIF
   neolith_verif_insn_hook = hook;
 #endif
@@ -372,15 +444,15 @@ static void elem1 (long idx) {
   char etext[200]; snprintf (etext, sizeof etext, "%s", hx_last_error);
   char rtext[300]; snprintf (rtext, sizeof rtext, "%.290s", r ? hx_canon_s (r) : "ERROR");
   int r_ok = r != 0, r_zero = r && r->type == T_NUMBER && r->u.number == 0;   /* r is a static slot: the next apply overwrites it */
-  if (selftest == 1) insns += 4 * budget;
+  if (selftest == 1) insns_prog += 4 * budget;
   if (selftest == 2 && r_zero) limit |= 1;
   vx_obs ("  -> %.200s %.150s  insns=%ld max_depth=%ld max_sp=%ld errors=%d limit_mask=%d", rtext, r ? "" : etext, insns, max_depth, max_sp, vw_nerrors, limit);
   vx_count (0, 1);
   if (limit) vx_count (1, 1);
   if (vw_nerrors) vx_count (2, 1);
 
-  if (insns > bound_insns)
-    vx_fail ("C04:instructions-exceed-3x-MaxEvaluationCost", "%ld instructions in one evaluation, MaxEvaluationCost %ld (bound 3x) [%s]", insns, budget, vm_ctx_desc);
+  if (insns_prog > bound_insns)
+    vx_fail ("C04:instructions-exceed-3x-MaxEvaluationCost", "%ld instructions in one evaluation (%ld with the master's error handler), MaxEvaluationCost %ld (bound 3x) [%s]", insns_prog, insns, budget, vm_ctx_desc);
   /* values reachable from the object and the return value */
   CONFIG_INT (__MAX_EVAL_COST__) = 1000000;
   if (r) check_value (r, "returned", 0);
@@ -391,6 +463,7 @@ static void elem1 (long idx) {
     char b[96]; snprintf (b, sizeof b, "%s", p->name);
     if (p->kind == 'V') { char *c = strrchr (b, ':'); if (c && (!strcmp (c, ":plain") || !strcmp (c, ":each-step-in-catch"))) *c = 0; }
     if (!strncmp (b, "loop:", 5)) snprintf (b, sizeof b, "loop");
+    if (!strncmp (b, "stack-edge:", 11)) { char *c = strstr (b, ":pad"); if (c) *c = 0; }
     snprintf (key, sizeof key, "%s:%s", viol_key[i], b);
     vx_fail (key, "%s [%s]", viol[i], vm_ctx_desc);
     vx_obs ("!! %s", key);
@@ -398,11 +471,13 @@ static void elem1 (long idx) {
   /* a limit error must reach the driver: code after the outermost catch must not run */
   int flag = -1;
   if (!(ob->flags & O_DESTRUCTED)) { svalue_t *f = hx_apply (ob, "query_flag", 0); if (f && f->type == T_NUMBER) flag = (int) f->u.number; }
-  if ((limit & 7) && (flag == 1 || r_ok)) {
+  /* bit 8 alone: "*Can't catch too deep recursion" raised by do_catch() itself because no frame is left for the catch */
+  if ((limit & 15) && (flag == 1 || r_ok)) {
     char key[200], cls[100]; snprintf (cls, sizeof cls, "%s", p->name);
     /* class of program: for loops the body decides, otherwise the program name */
     if (!strncmp (cls, "loop:", 5)) { char *c = strrchr (cls, ':'); snprintf (cls, sizeof cls, "loop-body:%s", c ? c + 1 : ""); }
-    snprintf (key, sizeof key, "C04:catch-swallowed-limit-error:%s:%s", (limit & 1) ? "eval-cost" : (limit & 2) ? "call-depth" : "stack-overflow", cls);
+    if (!strncmp (cls, "stack-edge:", 11)) { char *c = strstr (cls, ":pad"); if (c) *c = 0; }   /* the alignment is in the message */
+    snprintf (key, sizeof key, "C04:catch-swallowed-limit-error:%s:%s", (limit & 1) ? "eval-cost" : (limit & 2) ? "call-depth" : (limit & 4) ? "stack-overflow" : "call-depth-at-catch", cls);
     vx_fail (key, "\"%.60s\" was raised but the evaluation went on after the outermost catch (flag=%d, result %.100s) [%s]", ltext, flag, rtext, vm_ctx_desc);
   }
   if (p->kind == 'R' && !r_zero) {
@@ -413,7 +488,7 @@ static void elem1 (long idx) {
 }
 static void elem (long idx) { snprintf (vm_ctx_desc, sizeof vm_ctx_desc, "%s", progs[idx].name); vm_run_isolated (elem1, idx); }
 static void describe (long idx, char *buf, size_t len) {
-  snprintf (buf, len, "prog=%s\nconf=%ld,%ld,%ld,%ld,%ld,%ld\n%s", progs[idx].name, E, D, K, A, S, B, progs[idx].text);
+  snprintf (buf, len, "prog=%s\nconf=%ld,%ld,%ld,%ld,%ld,%ld,%ld\nmaster=%s\n%s", progs[idx].name, E, D, K, A, S, B, M, master_mode, progs[idx].text);
 }
 
 int main (int argc, char **argv) {
@@ -422,9 +497,17 @@ int main (int argc, char **argv) {
   vx_init_args (argc, argv);
   selftest = (int) vx_opt_long ("selftest", 0);
   const char *cs = vx_opt ("conf", "400,12,80,64,200,64");
-  if (sscanf (cs, "%ld,%ld,%ld,%ld,%ld,%ld", &E, &D, &K, &A, &S, &B) != 6) { fprintf (stderr, "bad --conf\n"); return 2; }
-  snprintf (conf, sizeof conf, "MaxEvaluationCost 1000000\nMaxCallDepth %ld\nStackSize %ld\nMaxArraySize %ld\nMaxMappingSize %ld\nMaxStringLength %ld\nMaxBufferSize %ld\n", D, K, A, A, S, B);
+  M = -1;
+  if (sscanf (cs, "%ld,%ld,%ld,%ld,%ld,%ld,%ld", &E, &D, &K, &A, &S, &B, &M) < 6) { fprintf (stderr, "bad --conf\n"); return 2; }
+  if (M < 0) M = A;
+  master_mode = vx_opt ("master", "plain");
+  snprintf (conf, sizeof conf, "MaxEvaluationCost 1000000\nMaxCallDepth %ld\nStackSize %ld\nMaxArraySize %ld\nMaxMappingSize %ld\nMaxStringLength %ld\nMaxBufferSize %ld\n", D, K, A, M, S, B);
   hx_boot (mud, conf, 0);
+  if (strcmp (master_mode, "plain")) {
+    /* a master whose error_handler() itself runs a catch / a safe_apply (sprintf("%O")) before it logs */
+    copy_and_push_string (!strcmp (master_mode, "catch") ? "eh_catch" : !strcmp (master_mode, "catchok") ? "eh_catch_ok" : "eh_objname"); push_number (1);
+    safe_apply_master_ob ("set_policy", 2);
+  }
   (void) do_load;
   build_corpus ();
   const char *only = vx_opt ("prog", 0);
@@ -436,7 +519,7 @@ int main (int argc, char **argv) {
   }
   if (vx_opt ("list", 0)) { for (long i = 0; i < nprogs; i++) printf ("%ld %c %s\n", i, progs[i].kind, progs[i].name); return 0; }
   vx_count_name (0, "evaluations_run"); vx_count_name (1, "limit_error_raised"); vx_count_name (2, "any_error_raised");
-  fprintf (stderr, "h_c04: conf E=%ld D=%ld K=%ld A=M=%ld S=%ld B=%ld programs=%ld\n", E, D, K, A, S, B, nprogs);
+  fprintf (stderr, "h_c04: conf E=%ld D=%ld K=%ld A=%ld M=%ld S=%ld B=%ld master=%s programs=%ld\n", E, D, K, A, M, S, B, master_mode, nprogs);
   vx_set_enum (nprogs, elem, describe);
   return vx_run (argc, argv, 0);
 }
